@@ -89,11 +89,49 @@ theorem set_port_state_refines (iface ch : Nat) (p : Port) (s : BmcState)
   have e5 : W / 256 / 256 / 256 % 256 = grouping := by omega
   simp [e1, e2, e3, e4, e5]
 
+/-- the whole 8-bit link type in `link_descr.type`, INTENDED: the same request as with the type split into its
+nibbles - the BMC holds exactly that link type -/
+theorem set_port_state_type8_refines (iface ch : Nat) (p : Port) (s : BmcState)
+    (h : (Call.setPortStateType8 iface ch p).InRange) :
+    (api_set_port_state_type8 iface ch p).run s = (set_port iface ch p s, .ok .unit) := by
+  have hl : p.linkType < 256 := h.2.2.2.1.linkType
+  have e : api_set_port_state_type8 iface ch p = api_set_port_state iface ch p := by
+    simp [api_set_port_state_type8, setPortState, api_set_port_state, Nat.mod_eq_of_lt hl]
+  rw [e]; exact set_port_state_refines iface ch p s h
+
+/-- AS SHIPPED: the 4-bit member `type` of the request cuts the link type to its low nibble and the signalling class
+member stays 0 - the BMC is told about a link of type `linkType % 16` -/
+theorem set_port_state_type8_shipped_run (iface ch : Nat) (p : Port) (s : BmcState)
+    (h : (Call.setPortStateType8 iface ch p).InRange) :
+    (api_set_port_state_type8_shipped iface ch p).run s =
+      (set_port iface ch { p with linkType := p.linkType % 16 } s, .ok .unit) := by
+  obtain ⟨h1, h2, h3, ⟨w1, w2, w3⟩, h4, h5⟩ := h
+  cases p with
+  | mk hasLink flags linkType ext grouping state =>
+  simp at h3 w1 w2 w3 h4 h5
+  subst h3
+  have f1 : ∀ X, flags % 2 + 2 * (flags / 2 % 2 + 2 * (flags / 4 % 2 + 2 * (flags / 8 % 2 + 2 * X))) = flags + 16 * X := by
+    intro X; omega
+  simp [api_set_port_state_type8_shipped, setPortState, api_eval, parsePort, bitsOf, f1, Nat.mod_eq_of_lt, *]
+  generalize hW : ch + 64 * (iface + 4 * (flags + 16 * (linkType % 16 + 16 * (16 * (ext + 16 * grouping))))) = W
+  have e1 : W % 256 / 64 % 4 = iface := by omega
+  have e2 : W / 256 % 16 = flags := by omega
+  have e3 : W / 256 % 256 / 16 % 16 + 16 * (W / 256 / 256 % 16) = linkType % 16 := by omega
+  have e4 : W / 256 / 256 % 256 / 16 % 16 = ext := by omega
+  have e5 : W / 256 / 256 / 256 % 256 = grouping := by omega
+  simp [e1, e2, e3, e4, e5]
+
+theorem or_f0 (x : Nat) (h : x < 16) : x ||| 240 = x + 240 := by
+  rw [Nat.or_comm, show (240 : Nat) = 2 ^ 4 * 15 from rfl, ← Nat.two_pow_add_eq_or_of_lt (by simpa using h) 15]; omega
+
+/-- `type` / `sig_class` of the returned descriptor name the BMC's 8-bit link type the way `linkTypeAttrs` says:
+nibbles for the PICMG 3.x types, the whole byte (TYPE_OEMx) and class 0 for an OEM type -/
 theorem get_port_state_refines (ch iface : Nat) (s : BmcState) (h1 : ch < 64) (h2 : iface < 4)
     (hw : (get_port iface ch s).Wf) :
     (api_get_port_state ch iface).run s =
       (s, .ok (let p := get_port iface ch s
-               .port (if p.hasLink then some { channel := ch, iface := iface, flags := p.flags, linkType := p.linkType,
+               .port (if p.hasLink then some { channel := ch, iface := iface, flags := p.flags,
+                                               linkType := (linkTypeAttrs p.linkType).1, sigClass := (linkTypeAttrs p.linkType).2,
                                                ext := p.ext, grouping := p.grouping, state := p.state } else none))) := by
   have e1 : (ch % 64 + 64 * (iface % 4)) % 256 / 64 % 4 = iface := by omega
   have e2 : (ch % 64 + 64 * (iface % 4)) % 256 % 64 = ch := by omega
@@ -104,7 +142,38 @@ theorem get_port_state_refines (ch iface : Nat) (s : BmcState) (h1 : ch < 64) (h
   simp at w1 w2 w3
   cases hasLink
   · simp [api_get_port_state, getPortState, api_eval, bitsOf, fmtPort, e1, e2, hp]
-  · simp [api_get_port_state, getPortState, api_eval, bitsOf, fmtPort, e1, e2, hp]
-    bits_close
+  · have e3 : (linkType / 16 + 16 * ext) % 256 % 16 = linkType / 16 := by omega
+    have e4 : (flags + 16 * (linkType % 16)) % 256 / 16 % 16 = linkType % 16 := by omega
+    have e3' : linkType / 16 % 16 = linkType / 16 := by omega
+    have e4' : (flags + 16 * (linkType % 16)) / 16 % 16 = linkType % 16 := by omega
+    by_cases ho : linkType / 16 = 15
+    · have e5 : linkType % 16 ||| 240 = linkType := by rw [or_f0 _ (by omega)]; omega
+      simp [api_get_port_state, getPortState, api_eval, bitsOf, fmtPort, linkTypeAttrs, e1, e2, e3, e4, e3', e4', e5, hp, ho]
+      bits_close
+    · simp [api_get_port_state, getPortState, api_eval, bitsOf, fmtPort, linkTypeAttrs, e1, e2, e3, e4, e3', e4', hp, ho]
+      bits_close
+
+/-- AS SHIPPED: the nibbles, for every link type -/
+theorem get_port_state_split_run (ch iface : Nat) (s : BmcState) (h1 : ch < 64) (h2 : iface < 4)
+    (hw : (get_port iface ch s).Wf) (hl : (get_port iface ch s).hasLink = true) :
+    (getPortState false ch iface true).run s =
+      (s, .ok (let p := get_port iface ch s
+               .port (some { channel := ch, iface := iface, flags := p.flags,
+                             linkType := p.linkType % 16, sigClass := p.linkType / 16,
+                             ext := p.ext, grouping := p.grouping, state := p.state }))) := by
+  have e1 : (ch % 64 + 64 * (iface % 4)) % 256 / 64 % 4 = iface := by omega
+  have e2 : (ch % 64 + 64 * (iface % 4)) % 256 % 64 = ch := by omega
+  generalize hp : get_port iface ch s = p at hw hl
+  obtain ⟨w1, w2, w3⟩ := hw
+  cases p with
+  | mk hasLink flags linkType ext grouping state =>
+  simp at w1 w2 w3 hl
+  subst hl
+  have e3 : (linkType / 16 + 16 * ext) % 256 % 16 = linkType / 16 := by omega
+  have e4 : (flags + 16 * (linkType % 16)) % 256 / 16 % 16 = linkType % 16 := by omega
+  have e3' : linkType / 16 % 16 = linkType / 16 := by omega
+  have e4' : (flags + 16 * (linkType % 16)) / 16 % 16 = linkType % 16 := by omega
+  simp [getPortState, api_eval, bitsOf, fmtPort, e1, e2, e3, e4, e3', e4', hp]
+  bits_close
 
 end PyIpmi.Lemmas.Api
